@@ -624,7 +624,7 @@ func (m c05) Run(c *core.Ctx) {
 	}
 	// (2) mutations of the corpus and of generated programs
 	corpus := c05corpus()
-	nmut := c.Pick(1500, 40000)
+	nmut := c.Pick(1500, 150000)
 	g := gen.Opts{MaxStmts: 18, MaxDepth: 3, ExprDepth: 2, Try: 0.4, Throw: 0.1, Funcs: 0.6, Shadow: 0.2, BuiltinShadow: 0.05, Consts: 0.4, Globals: true, DeepRecursion: 5, Modules: 0}
 	for i := 0; i < nmut; i++ {
 		var seed string
@@ -672,7 +672,7 @@ func (m c05) Run(c *core.Ctx) {
 		}
 	}
 	// (3) random byte strings and token strings
-	nrand := c.Pick(800, 20000)
+	nrand := c.Pick(800, 80000)
 	for i := 0; i < nrand; i++ {
 		var in []byte
 		maxLen := c.Pick(400, 4000)
